@@ -2,7 +2,7 @@
 import glob, os
 from ..common import CORPUS
 
-NTYPES = 42
+NTYPES = 46
 
 def fnv1a(s):
     h = 2166136261
@@ -11,7 +11,7 @@ def fnv1a(s):
     return h
 
 def go_type_name(t):
-    return {40: "json.RawMessage", 41: "*main.T41"}.get(t, "main.T%02d" % t)
+    return {40: "json.RawMessage", 41: "*main.T41", 42: "main.U02", 43: "main.U03", 44: "main.U04", 45: "main.U05"}.get(t, "main.T%02d" % t)
 
 SHARD = {t: fnv1a(go_type_name(t)) % 32 for t in range(NTYPES)}
 
@@ -49,6 +49,9 @@ class Gen:
         self.types = list(dict.fromkeys(grp[:2] + [r.randrange(NTYPES) for _ in range(r.randint(0, 2))]))
         if focus in ("C09", "C13", "C20") or r.random() < 0.3:
             self.types.append(r.randrange(30, 40))    # a TypeNamer type whose name depends on the value
+        if r.random() < 0.2:
+            # the first and the last shard (loops over the shard array start and end there)
+            self.types.append(r.choice([t for t, sh in SHARD.items() if sh in (0, 31)]))
         if r.random() < 0.35:
             self.types.append(r.choice([40, 41]))     # the pre-encoded document type / the type published as a pointer
             self.types = list(dict.fromkeys(self.types))
@@ -93,6 +96,8 @@ class Gen:
             # a net-zero edit of one type's registrations from inside a delivery: swap a handler for another
             t = self.ty()
             return "unsub %d %d ; %s" % (t, r.choice([0, 1, 6, 7, r.randrange(12)]), self.sub(True, ty=t))
+        if r.random() < 0.03:
+            return "subnil %d %d" % (self.ty(), r.randrange(12))
         if x < 0.12:
             return "panic %d" % r.randrange(1, 9) if r.random() < (0.9 if self.focus in ("C05", "C07") else 0.5) else "count %d" % self.ty()
         if x < 0.30 and not leaf:
@@ -173,6 +178,10 @@ class Gen:
                 lines.append("has %d" % self.ty())
             elif x < 0.95:
                 lines.append("wait" if r.random() < 0.4 else "drain")
+            elif x < 0.965 and self.focus in ("C05", "C01", "C13"):
+                lines.append("setpanich %d" % r.randrange(2))
+            elif x < 0.972:
+                lines.append("subnil %d %d" % (self.ty(), r.randrange(12)))
             elif x < 0.98:
                 lines.append("cancelid %d" % r.randrange(1, 6))
             else:
